@@ -20,6 +20,7 @@ func libEncode(in []byte, crc bool, cuts []int, zeroAt int) (out []byte, cerr er
 		w := lzhuf.NewWriter(&buf, crc)
 		prev := 0
 		k := 0
+		var scratch []byte
 		wr := func(p []byte) {
 			if k == zeroAt {
 				if n, err := w.Write(p[:0]); n != 0 || err != nil {
@@ -27,9 +28,15 @@ func libEncode(in []byte, crc bool, cuts []int, zeroAt int) (out []byte, cerr er
 				}
 			}
 			k++
-			n, err := w.Write(p)
+			// every piece comes in the caller's scratch buffer, which is refilled as soon as Write has
+			// returned (io.Writer: "Write must not retain p")
+			scratch = append(scratch[:0], p...)
+			n, err := w.Write(scratch)
 			if err != nil || n != len(p) {
 				cerr = fmt.Errorf("Write(%d bytes) returned (%d,%v)", len(p), n, err)
+			}
+			for i := range scratch {
+				scratch[i] ^= 0xa5
 			}
 		}
 		for _, c := range cuts {
